@@ -59,9 +59,12 @@ mod proofs {
     }
 
     // ------------------------------------------------------------ Curve25519 public keys
-    /// canonical + identity: accepted bytes re-encode to themselves; the all-zero encoding is refused (real dalek field comparison)
+    /// canonical + identity: accepted bytes re-encode to themselves; the all-zero encoding is refused (real dalek field comparison;
+    /// the scalar multiplication of the small-order filter is played by its contract, see `mul_clamped_stub`)
     #[kani::proof]
+    #[kani::unwind(34)]
     #[kani::stub(zeroize::optimization_barrier, noop_barrier)]
+    #[kani::stub(curve25519_dalek::montgomery::MontgomeryPoint::mul_clamped, mul_clamped_stub)]
     fn x25519_pk_decode_identity() {
         let b: [u8; 32] = kani::any();
         let r = <Curve25519 as KeGroup>::deserialize_pk(&b);
@@ -130,6 +133,7 @@ mod proofs {
     }
     #[kani::proof]
     #[kani::stub(zeroize::optimization_barrier, noop_barrier)]
+    #[kani::stub(curve25519_dalek::ristretto::CompressedRistretto::decompress, decompress_stub)]
     fn ristretto_decode_length() {
         let buf: [u8; 40] = kani::any();
         let l: usize = kani::any();
@@ -147,7 +151,7 @@ mod proofs {
                 assert!(b != [0u8; 32]);
                 assert!(!bool::from(<Ristretto255 as KeGroup>::is_zero_scalar(sk)));
                 assert!(<Ristretto255 as KeGroup>::serialize_sk(sk).as_slice() == &b[..]);
-                assert!(b[31] & 0xf0 == 0);   // below 2^252 + ...: the top four bits of a canonical scalar are clear
+                assert!(b[31] <= 0x10);        // below the group order l = 2^252 + 27742...: the top byte of a canonical scalar is at most 0x10
             }
             Err(_) => {}
         }
